@@ -57,12 +57,40 @@ OVERLAP_API = [OVF + 'filter_pair', OVF + 'filter_tables', 'py_stringsimjoin.joi
 LEMMA_CNT = ('spec definitions memV / cntV / isectV (match counting) with two ASSUMED induction facts: 0 <= cntV(a,b,p) <= p and '
              'cntV(a,b,p) = 0 when a is empty')
 
+SZI = 'py_stringsimjoin.index.size_index.SizeIndex.'
+SZF = 'py_stringsimjoin.filter.size_filter.SizeFilter.'
+SIZE_CORE = [SZI + '__init__', SZI + 'build', SZF + '__init__', SZF + 'find_candidates',
+             'py_stringsimjoin.filter.size_filter._filter_tables_split']
+SIZE_API = [SZF + 'filter_pair', SZF + 'filter_tables']
+FLT = 'py_stringsimjoin.filter.filter.'
+CANDSET = [GH + 'build_dict_from_table', FLT + '_filter_candset_split', FLT + 'Filter.filter_candset']
+MAT = 'py_stringsimjoin.matcher.apply_matcher.'
+MATCHER = [MAT + '_apply_matcher_split', MAT + 'apply_matcher']
+GENTOK = ('generate_tokens (ASSUMED, contracts/matcher.py): the token cache maps every key whose value is present to '
+          'tokenize(value) (pandas Series.apply / zip / dict)')
+ANYF = ('filter_candset is verified once against an abstract filter_pair (ASSUMED only to be a deterministic function of the '
+        'filter object and the two values, which each concrete filter_pair contract under verification refines)')
+SIMF = 'the sim_function passed to apply_matcher is an arbitrary deterministic function of its two arguments (uninterpreted)'
+
 PROPS['C01'] = dict(functions=ARITH + [SSJ] + JOINS + OVERLAP_CORE + OVERLAP_API, trusted=[PSM, PANDAS, LEMMA_INJ, LEMMA_CNT, JOBLIB])
 PROPS['C02'] = dict(functions=[SSJ] + HELPERS + JOINS + OVERLAP_CORE + OVERLAP_API, trusted=[PSM, PANDAS, LEMMA_INJ, LEMMA_CNT, JOBLIB])
-PROPS['C06'] = dict(functions=OVERLAP_CORE + OVERLAP_API[:2], trusted=[PSM, PANDAS, LEMMA_CNT, JOBLIB])
-PROPS['C09'] = dict(functions=[SSJ] + JOINS + OVERLAP_CORE + OVERLAP_API[:1], trusted=[PSM, PANDAS, LEMMA_INJ])
-PROPS['C11'] = dict(functions=HELPERS + [SSJ, MVH] + JOINS + OVERLAP_CORE[-1:] + OVERLAP_API[1:], trusted=[PANDAS])
-PROPS['C08'] = dict(functions=[MVH] + HELPERS + JOINS + OVERLAP_API, trusted=[PANDAS])
-PROPS['C10'] = dict(functions=[GH + 'split_table', GH + 'get_num_processes_to_launch'] + JOINS + OVERLAP_API[1:], trusted=[PANDAS, JOBLIB])
-PROPS['C12'] = dict(functions=JOINS + OVERLAP_API[1:], trusted=[PANDAS, PSM, JOBLIB])
-PROPS['C15'] = dict(functions=VALIDATORS + JOINS + [OVF + '__init__'] + OVERLAP_API[1:], trusted=[PANDAS])
+PROPS['C04'] = dict(functions=ARITH + SIZE_CORE + SIZE_API + OVERLAP_CORE + OVERLAP_API[:2] + CANDSET,
+                    trusted=[PSM, PANDAS, LEMMA_CNT, JOBLIB, ANYF])
+PROPS['C05'] = dict(functions=MATCHER + [GH + 'build_dict_from_table', GH + 'split_table',
+                                         GH + 'find_output_attribute_indices', GH + 'get_output_row_from_tables',
+                                         GH + 'get_output_header_from_tables', GH + 'get_attrs_to_project',
+                                         GH + 'remove_redundant_attrs'],
+                    trusted=[PANDAS, PSM, JOBLIB, GENTOK, SIMF])
+PROPS['C06'] = dict(functions=CANDSET + OVERLAP_CORE + OVERLAP_API[:2], trusted=[PSM, PANDAS, LEMMA_CNT, JOBLIB, ANYF])
+PROPS['C09'] = dict(functions=[SSJ] + JOINS + OVERLAP_CORE + OVERLAP_API[:1] + SIZE_CORE + SIZE_API, trusted=[PSM, PANDAS, LEMMA_INJ])
+PROPS['C11'] = dict(functions=HELPERS + [SSJ, MVH] + JOINS + OVERLAP_CORE[-1:] + OVERLAP_API[1:] + SIZE_CORE[-1:] + SIZE_API[1:],
+                    trusted=[PANDAS])
+PROPS['C08'] = dict(functions=[MVH] + HELPERS + JOINS + OVERLAP_API + SIZE_API + CANDSET + MATCHER, trusted=[PANDAS])
+PROPS['C10'] = dict(functions=[GH + 'split_table', GH + 'get_num_processes_to_launch'] + JOINS + OVERLAP_API[1:] + SIZE_API[1:] +
+                    CANDSET[-1:] + MATCHER[-1:], trusted=[PANDAS, JOBLIB])
+PROPS['C12'] = dict(functions=JOINS + OVERLAP_API[1:] + SIZE_API[1:] + CANDSET[-1:] + MATCHER[-1:], trusted=[PANDAS, PSM, JOBLIB])
+PROPS['C14'] = dict(functions=ARITH[:2] + SIZE_CORE + SIZE_API + OVERLAP_CORE + OVERLAP_API[:2], trusted=[PSM, PANDAS, LEMMA_CNT, JOBLIB],
+                    bounded_extra=[dict(fn='spec.size_window_tightness', case=c_) for c_ in
+                                   ('JACCARD', 'COSINE', 'DICE', 'COSINE-right-empty')])
+PROPS['C15'] = dict(functions=VALIDATORS + JOINS + [OVF + '__init__', SZF + '__init__'] + OVERLAP_API[1:] + SIZE_API[1:] +
+                    CANDSET[-1:] + MATCHER[-1:], trusted=[PANDAS])
